@@ -542,6 +542,19 @@ def check(model, rep, tier):
           if h.type is not None and core.dotted(h.type) == 'AttributeError' and any(
               st in stores for b in h.body for st in ast.walk(b)):
             probes.append(h)
+        # ... or the try body returns the attribute, so that what follows the
+        # statement runs only after the AttributeError handler
+        if t.body and isinstance(t.body[-1], ast.Return) and not t.orelse and \
+            not t.finalbody and t.handlers and all(
+                h.type is not None and core.dotted(h.type) == 'AttributeError'
+                for h in t.handlers):
+          for blk in [accessor.node.body] + [
+              getattr(n_, f_) for n_ in ast.walk(accessor.node) for f_ in ('body', 'orelse')
+              if isinstance(getattr(n_, f_, None), list)]:
+            if any(x is t for x in blk):
+              after = blk[[i for i, x in enumerate(blk) if x is t][0] + 1:]
+              if any(st in stores for b in after for st in ast.walk(b)):
+                probes.append(t)
     stored = tpl.expand(accessor, stores[0].value, stores[0]) if len(stores) == 1 else None
     ok2 = len(stores) == 1 and isinstance(stored, ast.List) and \
         len(stored.elts) == 1 and bool(probes)
@@ -602,6 +615,15 @@ def check(model, rep, tier):
       if isinstance(n, ast.With):
         for it in n.items:
           c = it.context_expr
+          if isinstance(c, ast.Name):
+            # a local bound (once, in the same function) to the context object
+            owner = [d for d in ast.walk(fi.node) if isinstance(d, (
+                ast.FunctionDef, ast.Lambda)) and any(x is n for x in ast.walk(d))]
+            owner = owner[-1] if owner else fi.node
+            defs_ = [a.value for a in core.walk_no_nested(owner) if isinstance(a, ast.Assign)
+                     and len(a.targets) == 1 and core.norm(a.targets[0]) == c.id]
+            if len(defs_) == 1:
+              c = defs_[0]
           if isinstance(c, ast.Call) and _is_ctx_class(
               model, fi.module, c.func, {'ControlStatusCtx'}):
             st = None
